@@ -128,5 +128,12 @@ pub fn corner_projects() -> Vec<(String, Project, Vec<&'static str>)> {
         p.sig.push("inputs:x.txtpp.txt,inc.out.txtpp".to_string());
         v.push(("twin-sources-one-output".to_string(), p, vec!["build", "needed"]));
     }
+    // 15. a tag that is still waiting (or stored and never used) when the file ends is an error - in build, only-if-needed and
+    //     verify alike, also when the output on disk already equals what the rest of the file produces
+    for (k, src) in [&b"plain\nTXTPP#tag WAIT\n"[..], &b"plain\nTXTPP#tag WAIT\n-TXTPP#temp w.tmp\n-x\n"[..], &b"TXTPP#tag NEVER\n-TXTPP#write stored\nplain\n"[..], &b"plain\nTXTPP#tag W2\nTXTPP#after nothing-there.txt\n"[..]].iter().enumerate() {
+        let mut p = proj(vec![("ut.txt.txtpp", src.to_vec()), ("ut.txt", b"plain\n".to_vec())], vec!["ut.txt.txtpp"], vec![], "unused-tag-at-eof");
+        p.expect_error = true;
+        v.push((format!("tag-unused-at-end-of-file-{k}"), p, vec!["build", "needed", "verify"]));
+    }
     v
 }
